@@ -196,6 +196,10 @@ class Inventory:
                     coll = origin_desc(strip(ln_[2]))
                 if idx[0] == "k" and coll is not None and self.len_guard(cdescs, coll, int(idx[1]) + 1):
                     return self.g(site, "constant index %s under a dominating length test of %s" % (idx[1], coll))
+                if idx[0] in ("arg", "var", "upvar") and coll is not None:
+                    vals = self.const_values(sc, fn, idx, 0)
+                    if vals and min(vals) >= 0 and self.len_guard(cdescs, coll, max(vals) + 1):
+                        return self.g(site, "index takes the constant values %s, under a dominating length test of %s" % (sorted(vals), coll))
                 if self.index_in_range(sc, body, idx, coll, cdescs):
                     return self.g(site, "index ranges over 0..len / enumerate / modulo of the same collection")
                 return None
@@ -439,6 +443,32 @@ class Inventory:
                     return None
                 out |= v
             return out
+        if n[0] == "arg" and self.prog.root_of(fn).id != fn.id:
+            # a parameter of a closure that is called by name in its function (`let f = |idx| ..; f(5)`): the values passed at those calls
+            target = None
+            for f3 in [self.prog.root_of(fn)] + self.prog.closures_of(self.prog.root_of(fn)):
+                names = f3.body.names
+                if any(isinstance(i_, int) and i_ == n[1] and nm_ == n[2] for i_, nm_ in names.items()) and f3.id != self.prog.root_of(fn).id and 2 <= n[1] <= f3.body.argc:
+                    target = f3
+            if target is None:
+                return None
+            out = set()
+            found = False
+            for f2 in [self.prog.root_of(fn)] + self.prog.closures_of(self.prog.root_of(fn)):
+                sc2 = None
+                for b, t in f2.body.calls():
+                    c = callee_of(t)
+                    if c and (c.get("rid") or c["id"]) == target.id and len(t["args"]) == 2:
+                        sc2 = sc2 or self.scope_for(f2)
+                        tup = strip(sc2.operand(t["args"][1]))
+                        if tup[0] != "agg" or n[1] - 2 >= len(tup[3]):
+                            return None
+                        v = self.const_values(sc2, f2, tup[3][n[1] - 2], depth + 1)
+                        if v is None:
+                            return None
+                        out |= v
+                        found = True
+            return out if found else None
         if n[0] == "arg":
             root = self.prog.root_of(fn)
             if root.id != fn.id or root.raw.get("pub"):
